@@ -107,4 +107,14 @@ Definition run (op : bytes) (args : list val) : val :=
             then val_of_R (val_of_option DateTime.enc_ndt) (DateTime.ndt_with (7 + which) x v) else VBad
         | _, _ => VBad end
     | _ => VBad end
+  (* the deprecated panicking constructors: expect(..) of the _opt forms *)
+  else if op_is op "t.phms" then u32_3 (fun h m s => val_of_R enc_time (unwrap_r (from_hms_opt h m s)))
+  else if op_is op "t.phms_milli" then u32_4 (fun h m s x => val_of_R enc_time (unwrap_r (from_hms_milli_opt h m s x)))
+  else if op_is op "t.phms_micro" then u32_4 (fun h m s x => val_of_R enc_time (unwrap_r (from_hms_micro_opt h m s x)))
+  else if op_is op "t.phms_nano" then u32_4 (fun h m s x => val_of_R enc_time (unwrap_r (from_hms_nano_opt h m s x)))
+  else if op_is op "t.pnsfm" then
+    match args with
+    | [a; b] => match arg_u32 a, arg_u32 b with
+                | Some s, Some n => val_of_R enc_time (unwrap (from_num_seconds_from_midnight_opt s n)) | _, _ => VBad end
+    | _ => VBad end
   else VErr B"NOOP".
